@@ -60,9 +60,23 @@ OpMatch(r, e) ==
          [] e.t = "str" -> Has(r, "str") /\ r.str = e.v
          [] e.t = "raw" -> Has(r, "raw") /\ r.raw = e.v
 
+(* OPS_MODE = "embed" (C06): the model's operations must occur, in order, among the recorded ones; recorded
+   operations in between may only be further appends on the main transcript (extra binding is not a violation,
+   a missing, reordered or relabelled operation, or any extra challenge, is).  Default: equality (C18). *)
+Embed == "OPS_MODE" \in DOMAIN IOEnv /\ IOEnv.OPS_MODE = "embed"
+
+RECURSIVE Embeds(_, _, _, _)
+Embeds(model, logged, i, j) ==
+  IF i > Len(model)
+  THEN \A k \in j .. Len(logged) : logged[k].o = "A"
+  ELSE IF j > Len(logged) THEN FALSE
+  ELSE IF OpMatch(logged[j], model[i]) THEN Embeds(model, logged, i + 1, j + 1)
+  ELSE logged[j].o = "A" /\ Embeds(model, logged, i, j + 1)
+
 OpsMatch(logged, model) ==
-  CmpO => /\ Len(logged) = Len(model)
-          /\ \A k \in 1 .. Len(logged) : OpMatch(logged[k], model[k])
+  CmpO => IF Embed THEN Embeds(model, logged, 1, 1)
+          ELSE /\ Len(logged) = Len(model)
+               /\ \A k \in 1 .. Len(logged) : OpMatch(logged[k], model[k])
 
 NewOps(role) == SubSeq(tr'[role], Len(tr[role]) + 1, Len(tr'[role]))
 
@@ -140,9 +154,20 @@ TraceVerify1 ==
   /\ VerifyStart
   /\ OpsMatch(Ev.tx, NewOps("V"))
 
+(* C03: once the verifier reaches the algebraic check, its verdict must be that of the unbatched relations
+   (b) Tres = 0 and (c) Ires = 0 (generators folded round by round) - except for the single value of the
+   combiner r = -Ires/Tres at which the combined check cannot tell (probability 1/P), and the combined
+   residual must be the weighted sum the specification says it is. *)
+RefExplains ==
+  LET a == out'.ref IN
+  (a # << >> /\ a.nz) =>
+    /\ a.mega = Fadd(a.Ires, Fmul(a.r, a.Tres))
+    /\ \/ (Ev.res = "ok") <=> (a.Ires = 0 /\ a.Tres = 0)
+       \/ a.Tres # 0 /\ a.mega = 0
+
 VerifyOutcome ==
   \/ degen'
-  \/ /\ CmpV => res'.V = Ev.res
+  \/ /\ CmpV => (res'.V = Ev.res /\ RefExplains)
      /\ OpsMatch(Ev.tx, NewOps("V"))
 
 TraceVerify2 ==
